@@ -204,6 +204,24 @@ def check(chk, repo):
             rep.fn("STATE-config", w.entry, f"{cls}.{m} leaves the configuration {sorted(config)} untouched", not bad,
                    "" if not bad else f"'{bad[0].text()[:80]}' changes an option of the model: a later fit/predict of the same "
                    "object on other data gives different results than a fresh, identically configured model")
+            # ... also element-wise, through a callee: a configuration array (the loaded distance matrix) handed to a
+            # function that writes through that parameter is changed for every later call
+            from ..effects import bind_args
+            for e in w.events:
+                if e.kind != "call":
+                    continue
+                for callee in eff.callees(e, e.fn):
+                    cw = eff.writes.get(callee.fq, {})
+                    if not cw:
+                        continue
+                    for cp, arg in bind_args(callee, e):
+                        a = _peel(arg)
+                        if cp in cw and a[0] == "attr" and a[1] == ("self",) and a[2] in config:
+                            ev0, how = cw[cp][0]
+                            rep.ev("STATE-config", e, False,
+                                   f"self.{a[2]} is passed to {callee.qual}, which writes through its parameter '{cp}' "
+                                   f"({how}: {ev0.text()[:60]}): the model's own {a[2]} is altered by {cls}.{m}, so a second "
+                                   "call on the same inputs computes with different values")
         w, comps = competitions_of(repo, cls, "fit", 2)
         check_fresh_graph(rep, w, comps[0].loop.first_seq, cls[:4] + ":")
     chk.undecided.append("bit-for-bit equality of two fits as a run-time fact (follows from determinism + no shared state)")
